@@ -10,7 +10,10 @@ CORE = ["a", " ", "\n", "\r", "\r\n", ";", "(", ")", "]", "*/", "*", "/", "G1 X9
 TOKENS = CORE + ["é", "{}", "%s", "'", ">", "}", "#", "//", "[", "/*"]
 # single texts outside the token grammar: long ones, exotic separators, format-string look-alikes, escapes
 SPECIAL = ["note " * 80, ("Traceback: " + "x" * 300 + ")\nM3 S1"), "a\x0bG1 X9", "a\x0cG1 X9", "a\x85G1 X9", "a\u2028G1 X9", "a\u2029M3 S1", "a\x1cG1 X9",
-           "{0}", "{x}", "{", "%(a)s", "%d", "\\", "a\\", "\\n", "$", "\t", "\x00", "a\tG1 X9", " ", "   ", "\n", "\r\n\r\n", ")(", "))", "*/*/", "\ufeffG1 X9"]
+           "{0}", "{x}", "{", "%(a)s", "%d", "\\", "a\\", "\\n", "$", "\t", "\x00", "a\tG1 X9", " ", "   ", "\n", "\r\n\r\n", ")(", "))", "*/*/", "\ufeffG1 X9",
+           # compatibility forms of the delimiters (a normalisation step after sanitising would fold them back to ASCII)
+           "done\uff09 M112", "a\ufe5a G1 X9", "a\u207e M3 S1", "a\uff3d G1 X9", "a\uff1e G1 X9", "a\uff02 G1 X9", "a\uff07 G1 X9", "a\uff0a\uff0f M3 S1",
+           "a\uff1b G1 X9", "\uff08a", "\u2474 G1 X9", "e\u0301", "\u00e9", "\ufb01"]
 STYLES = [";", "#", "//", "(", "[", "/*", '"', "'", "<"]
 
 ENTRIES = {
